@@ -146,6 +146,9 @@ def handleE2E (fs : List String) : String :=
   match fs with
   -- an audited request header: the configuration in force is the update's when it was stored, the earlier one when its
   -- storage write failed (an update that answers with an error has no effect)
+  -- on a standby that audits its own requests the configuration in force is the cluster's persisted one
+  | ["hdrstandby", upd] =>
+    if upd = "to-hmac" then "hdr:hmac" else if upd = "removed" then "hdr:absent" else "bad-op"
   | ["hdr", upd, fault] =>
     let toClear := upd = "to-clear"
     if fault = "1" then "err:internal|hdr:" ++ (if toClear then "hmac" else "clear")
